@@ -4,7 +4,7 @@
 # (2) the demonstration fails with the change and passes without, (3) runs ./check <ID> quick
 # (and thorough when quick stays silent) against the changed tree. Prints a JSON summary.
 id="$1"; k="$2"; pkg="$3"; shift 3
-out=/tmp/seed/out/$id
+out=${SEED_OUT:-/tmp/seed/out}/$id
 export GOFLAGS=-mod=mod GOPROXY=off GOSUMDB=off GOTOOLCHAIN=local
 scratch=$(mktemp -d /tmp/seedchk.XXXXXX)
 rsync -a --exclude .git /repo/ "$scratch/"
